@@ -15,7 +15,7 @@ PROPS = {
     "C04": dict(level="fault_enumeration", shards=(16, 16), timeout=(1200, 3400), assumptions=COMMON + ["crypto/tls and crypto/x509 of Go 1.23 verify chains and host names correctly; the peer tags received elements clear-text / inside-TLS by the connection object they were read from"]),
     "C05": dict(level="exploration", shards=(4, 16), timeout=(900, 3000), assumptions=COMMON + ["loopback TCP / WebSocket deliver bytes in order; quiescence is detected by waiting (up to 5 s, 20 s on the confirming re-run) until the expected number of stanzas was routed"]),
     "C06": dict(level="exploration", shards=(2, 16), timeout=(300, 1500), assumptions=COMMON),
-    "C07": dict(level="exploration", shards=(4, 16), timeout=(900, 3000), assumptions=COMMON + ["the two yield points (verif build tag) are the only places where the harness forces an interleaving; other interleavings are those of the Go scheduler"], race=dict(pattern="^TestC07_iqresult$", shards=(2, 8), timeout=(900, 3000), scale=0.2, quick=False)),
+    "C07": dict(level="exploration", shards=(4, 16), timeout=(900, 3000), assumptions=COMMON + ["the two yield points (verif build tag) are the only places where the harness forces an interleaving; other interleavings are those of the Go scheduler"], race=dict(pattern="^TestC07_(iqresult|stress)$", shards=(2, 8), timeout=(900, 3000), scale=0.2, quick=False)),
     "C08": dict(level="exploration", shards=(4, 16), timeout=(900, 3000), assumptions=COMMON + ["the scripted peer's byte-exact capture of each received element is the wire truth"], race=dict(pattern="^TestC08_send$", shards=(2, 8), timeout=(900, 3000), scale=0.25, quick=False)),
     "C09": dict(level="exploration", shards=(4, 16), timeout=(600, 3000), assumptions=COMMON + ["loopback TCP delivers bytes in order; the scripted peer's own count of stanzas it sent is the wire truth"]),
     "C10": dict(level="exploration", shards=(4, 16), timeout=(900, 3000), assumptions=COMMON + ["the order in which the scripted peer receives elements is the wire order; quiescence after each step is detected by waiting for the expected number of elements (4 s, 16 s on the confirming re-run) plus a short settle time"], race=dict(pattern="^TestC10_smqueue$", shards=(2, 8), timeout=(900, 3000), scale=0.25, quick=False)),
@@ -38,7 +38,7 @@ TEXT = {
     "C07": dict(
         technique="stateful schedule-owning property test (rapid): generated histories of SendIQ / response / read / cancel operations with goroutines parked and released at two yield points compiled in under the verif build tag; -race pass in the thorough tier",
         level_text="Exploration with harness-owned schedules: histories over 1-4 SendIQ requests on a Client or Component (stub Transport) are generated as values; the calling goroutine can be parked between the write of the request and the registration of the pending route, and a goroutine routing a response can be parked after it found the pending entry, so the three logical races of the code (response between write and registration; two responses both past the lookup; delivery racing with an abandoned or cancelled receiver) are produced deterministically and shrink like any other value. Oracle: no panic, no route call outlives the contexts, at most one response per channel and only its own id, no response in two places, the caller of a written, uncancelled, read request gets exactly the first response, the channel is closed and the entry removed, unknown ids go to the ordinary route once.",
-        level_note="Only interleavings that pass through the two yield points are forced; the rest is left to the Go scheduler (and to -race in the thorough tier). Requests with clashing ids only get the safety assertions (which of them receives the response is not specified). 2000 histories quick, 100k thorough.",
+        level_note="Only interleavings that pass through the two yield points are forced; the rest is left to the Go scheduler (and to -race in the thorough tier). Requests with clashing ids only get the safety assertions (which of them receives the response is not specified). 2000 histories + 120 stress cases (50-400 rounds each) quick, 100k + 4000 thorough. The stress check (start barrier, concurrent duplicates, racing cancellation) covers interleavings away from the yield points statistically.",
     ),
     "C08": dict(
         technique="property-based concurrency stress (rapid) with a byte-exact wire oracle on the scripted peer, plus write-fault injection on a stub Transport; -race pass in the thorough tier",
@@ -78,7 +78,7 @@ TEXT = {
     "C12": dict(
         technique="crash-point enumeration: every byte offset of fixed inbound streams plus rapid-generated streams and offsets; real Client against the scripted peer; goroutine-dump and transcript oracles",
         level_text="Fault enumeration: the server-to-client stream is cut (prefix, then half-close) at every byte offset of a few fixed streams (all offsets enumerated: between stanzas, inside tags, attributes, text, entities, CDATA, comments) and at generated offsets of generated streams, with and without stream management. Oracle per cut: one error callback and one Disconnected event (with the SM id), every stanza complete before the cut routed exactly once and nothing else, no surviving library goroutine, no keepalive write afterwards.",
-        level_note="Read-side cuts only (crash_points of the inbound stream, as the property states); the enumeration is complete for the fixed streams (~600 offsets quick, ~1500 thorough), sampled for generated ones. Timing-dependent verdicts (loss not reported, goroutine leak) are confirmed by a re-run with 4x margins.",
+        level_note="Read-side cuts only (crash_points of the inbound stream, as the property states), over plain TCP and STARTTLS (TLS 1.3 / 1.2), with and without the traffic logger, the end of the stream in the same or a separate segment; the enumeration is complete for the fixed streams (~600 offsets quick, ~1500 thorough), sampled for generated ones. Timing-dependent verdicts (loss not reported, goroutine leak) are confirmed by a re-run with 4x margins.",
     ),
     "C05": dict(
         technique="history-based property test (rapid) of real Client/Component sessions against the scripted peer (TCP and WebSocket); multiset oracle over routed stanza ids",
@@ -88,17 +88,17 @@ TEXT = {
     "C09": dict(
         technique="history-based property test (rapid) of a real Client against a scripted peer that keeps the wire truth",
         level_text="Exploration: generated inbound histories over stanzas, <r/>, <a/> and other non-stanza elements on 1-4 successive connections of one stream-managed session (drop + Resume in between); the peer counts the stanzas it sent and compares the h of every <a/> answer and of every <resume/> with that count, and previd with the id it gave.",
-        level_note="2000 histories quick, 60k thorough, up to 60 elements per connection. The <a/> elements sent by the peer carry a very large h so that the (separate, C10) retransmission logic stays quiet.",
+        level_note="2000 histories quick, 24k thorough, up to 60 elements per connection. The <a/> elements sent by the peer carry a very large h so that the (separate, C10) retransmission logic stays quiet.",
     ),
     "C16": dict(
         technique="property-based test (rapid) of a real Component against a scripted XMPP peer; digest recomputed by the harness; reply alphabet enumerated by variant",
         level_text="Exploration: generated stream ids (attribute-legal text incl. entities, quotes, non-ASCII, empty) and secrets (arbitrary bytes) crossed with the server's reply (handshake in 3 forms, 8 stream errors, 8 unexpected elements, 4 malformed forms, truncated, closed); a real Component connects over loopback TCP; the handshake text must be the lower-case hex SHA-1 of id||secret, and Connect nil / state established / next stanza routed must hold exactly when the reply was <handshake/>.",
-        level_note="2000 connections quick, 60k thorough. Fault replies are sampled per case rather than enumerated for every id, since id/secret and reply are independent in the code.",
+        level_note="2000 connections quick, 24k thorough. Fault replies are sampled per case rather than enumerated for every id, since id/secret and reply are independent in the code.",
     ),
     "C14": dict(
         technique="property-based test (rapid) of a real Client against a scripted XMPP peer; oracle on the peer's transcript",
         level_text="Exploration: generated user names (everything NewJid accepts), secrets (arbitrary bytes), credential kind, server mechanism lists and server replies; a real Client connects over loopback TCP to a scripted peer which records the <auth/> element; the decoded payload must equal NUL local NUL secret byte for byte, the mechanism must be advertised and supported, no common mechanism must mean nothing is sent after the stream header and a permanent error, <failure/> must be a permanent error, and anything but <success/> must not authenticate.",
-        level_note="600 connections quick, 40k thorough. Only TCP (the WebSocket transport shares authSASL). Assumes the peer's XML reader reports what was on the wire.",
+        level_note="3000 connections quick, 24k thorough (bounded by the ephemeral-port budget of the machine). Only TCP (the WebSocket transport shares authSASL). Assumes the peer's XML reader reports what was on the wire.",
     ),
     "C02": dict(
         technique="grammar-based property test (rapid) with a reference element list, metamorphic read-segmentation relation, truncation/corruption fault injection, child-process deep-nesting probes, native go fuzzing",
